@@ -23,6 +23,7 @@ type MemConn struct {
 	Writes   int
 	Closed   bool
 	WriteErr error
+	MaxRead  int // >0: every Read hands out at most this many bytes (the peer's bytes trickle in)
 	// PartialWrite, when armed (PartialWriteArmed), makes the NEXT Write pass only its first PartialWrite
 	// bytes and then fail with ErrInjectedWrite (one-shot): a write deadline firing in mid-frame.
 	PartialWrite      int
@@ -65,6 +66,9 @@ func (c *MemConn) Read(p []byte) (int, error) {
 	}
 	if c.rd >= len(c.In) {
 		return 0, io.EOF
+	}
+	if c.MaxRead > 0 && len(p) > c.MaxRead {
+		p = p[:c.MaxRead]
 	}
 	n := copy(p, c.In[c.rd:])
 	c.rd += n
